@@ -5,9 +5,9 @@ package crypto
 // Verification hooks for property C14 (aggregate transaction signatures): thin exported
 // wrappers around the unexported transcript / coefficient / challenge helpers.
 
-// VerifAggregateWeighted returns the weighted aggregate key, the per-signer coefficients
+// VerifC14AggregateWeighted returns the weighted aggregate key, the per-signer coefficients
 // (canonical scalar bytes, in signer order) and the signer transcript.
-func VerifAggregateWeighted(publics []*Key, signers []int) (Key, [][32]byte, []byte, error) {
+func VerifC14AggregateWeighted(publics []*Key, signers []int) (Key, [][32]byte, []byte, error) {
 	key, coefficients, transcript, err := aggregateWeightedPublicKey(publics, signers)
 	if err != nil {
 		return Key{}, nil, nil, err
@@ -19,8 +19,8 @@ func VerifAggregateWeighted(publics []*Key, signers []int) (Key, [][32]byte, []b
 	return key, out, transcript, nil
 }
 
-// VerifAggregateChallenge returns the canonical bytes of H(commitment ‖ public ‖ message).
-func VerifAggregateChallenge(commitment, public []byte, message Hash) ([32]byte, error) {
+// VerifC14AggregateChallenge returns the canonical bytes of H(commitment ‖ public ‖ message).
+func VerifC14AggregateChallenge(commitment, public []byte, message Hash) ([32]byte, error) {
 	var out [32]byte
 	x, err := aggregateChallenge(commitment, public, message)
 	if err != nil {
